@@ -1,4 +1,5 @@
 import SpVerif.Lemmas.RTree
+import SpVerif.Lemmas.RTreeIndex
 /-!
 # C03 — R-tree queries return exactly the intersecting / covered boxes
 
@@ -158,6 +159,52 @@ theorem C03_empty_total_bounds (d ps k : Nat) : totalBounds d (build ps k []) = 
   induction k with
   | zero => simp [totalBounds, build, PTree.box]
   | succ k ih => simp [totalBounds, build, PTree.box, unionOpt] at *; simp [ih]
+
+/-! ### the array encoding of the tree (index arithmetic of `_NumbaRtree`) -/
+
+/-- **index arithmetic of the array-encoded tree**: in a `bounds_tree` of `2·2^D − 1` rows the node at depth `t`, position `j` is row
+`2^t − 1 + j`; its children are the nodes at depth `t+1`, positions `2j` and `2j+1`; `_start_index` / `_stop_index` give exactly the
+row positions of the pages below it, `[j·2^(D−t)·ps, (j+1)·2^(D−t)·ps)`; and the leaf test `stop − start ≤ page_size` holds exactly
+for the nodes of the last level (`page_size ≥ 1`) -/
+theorem C03_index_arithmetic (D ps t j : Nat) (hps : 1 ≤ ps) (ht : t ≤ D) (hj : j < 2 ^ t) :
+    let len := 2 * 2 ^ D - 1
+    let node := 2 ^ t - 1 + j
+    RTreeIndex.leftChild node = 2 ^ (t + 1) - 1 + 2 * j ∧ RTreeIndex.rightChild node = 2 ^ (t + 1) - 1 + (2 * j + 1) ∧
+    RTreeIndex.startIndex len ps len node = j * 2 ^ (D - t) * ps ∧
+    RTreeIndex.stopIndex len ps len node = (j + 1) * 2 ^ (D - t) * ps ∧
+    (RTreeIndex.stopIndex len ps len node - RTreeIndex.startIndex len ps len node ≤ ps ↔ t = D) := by
+  intro len node
+  have hp := Nat.two_pow_pos t
+  have hfuel : D - t ≤ len := by
+    have : D < 2 ^ D := Nat.lt_two_pow_self
+    show D - t ≤ 2 * 2 ^ D - 1
+    omega
+  have hs := RTreeIndex.startIndex_eq D ps (D - t) t j len (by omega) hj hfuel
+  have he := RTreeIndex.stopIndex_eq D ps (D - t) t j len (by omega) hj hfuel
+  refine ⟨?_, ?_, hs, he, ?_⟩
+  · show 2 * (2 ^ t - 1 + j) + 1 = _
+    rw [RTreeIndex.two_pow_succ]; omega
+  · show 2 * (2 ^ t - 1 + j) + 2 = _
+    rw [RTreeIndex.two_pow_succ]; omega
+  · rw [hs, he]
+    have hd := Nat.two_pow_pos (D - t)
+    have hdiff : (j + 1) * 2 ^ (D - t) * ps - j * 2 ^ (D - t) * ps = 2 ^ (D - t) * ps := by
+      rw [Nat.add_mul, Nat.add_mul, Nat.one_mul]; omega
+    rw [hdiff]
+    constructor
+    · intro hle
+      by_cases hne : t = D
+      · exact hne
+      · exfalso
+        have h2 : 2 ≤ 2 ^ (D - t) := by
+          have h1 : 1 ≤ D - t := by omega
+          calc 2 = 2 ^ 1 := rfl
+            _ ≤ 2 ^ (D - t) := Nat.pow_le_pow_right (by omega) h1
+        have h3 : 2 * ps ≤ 2 ^ (D - t) * ps := Nat.mul_le_mul_right ps h2
+        omega
+    · intro h
+      subst h
+      simp
 
 /-! non-vacuity: three well-formed 2-d rows, page size 1 (depth 2), a query touching a row edge -/
 example : intersects 2 (buildTree 1 [(0, [0,0,1,1]), (1, [2,2,3,3]), (2, [0,2,1,5])]) [1,1,2,2] = [0, 1, 2] := by decide
